@@ -45,6 +45,16 @@ func (vc *VC) resolveGhostType(env *Env, g *GhostVar) types.Type {
 // `file`: first in the scope of the function under evaluation, then in the
 // package whose directory holds the contract file (any of its file scopes).
 func (vc *VC) resolveTypeAt(env *Env, file, text string) types.Type {
+	if t := vc.typeInDirOf(file, text); t != nil {
+		return t
+	}
+	return vc.resolveType(env, text)
+}
+
+// typeInDirOf resolves a type expression in the package whose directory holds
+// the given contract file (trying each of its file scopes, since imports are
+// per file).
+func (vc *VC) typeInDirOf(file, text string) types.Type {
 	gd := file
 	if i := strings.LastIndex(gd, "/"); i >= 0 {
 		gd = gd[:i]
@@ -66,7 +76,7 @@ func (vc *VC) resolveTypeAt(env *Env, file, text string) types.Type {
 			}
 		}
 	}
-	return vc.resolveType(env, text)
+	return nil
 }
 
 // ifaceKey names the contract of an interface method: pkg.Type.Method.
@@ -106,6 +116,7 @@ func (f *frame) ifaceContractCall(x ssa.CallInstruction, recv Val, args []Val, i
 		return env
 	}
 	env := mkEnv(pre)
+	env.specFile = spec.File
 	for _, c := range spec.Requires {
 		t := vc.evalSpec(env, c.Expr)
 		vc.obligeIn(f, "call-requires", fmt.Sprintf("%s.%d", key, c.Idx), in, t.T, x.Pos(), "precondition of "+key+": "+c.Text)
@@ -139,6 +150,7 @@ func (f *frame) ifaceContractCall(x ssa.CallInstruction, recv Val, args []Val, i
 	}
 	res := f.freshVal(callName(x), rtype, in, st)
 	post := mkEnv(st)
+	post.specFile = spec.File
 	switch sig.Results().Len() {
 	case 0:
 	case 1:
